@@ -427,7 +427,7 @@ def gen_case(ctx, i):
     extra = {}
     vals = (0, 1, 2, 3, 5)
     if r < 0.34:      # inside the hypotheses of C07_equiv_partial
-        content = cg.gen_content(rng, all_vars_have_eq=True, p_ia_par=0.1, p_ia_var=0.15)
+        content = cg.gen_content(rng, all_vars_have_eq=True, p_ia_par=0.1, p_ia_var=0.15, p_param_names=0.3)
         stratum = "clean"
     elif r < 0.46:
         content = cg.gen_content(rng, all_vars_have_eq=False, p_ia_par=0.0, p_ia_var=0.15)
@@ -450,7 +450,7 @@ def gen_case(ctx, i):
     elif r < 0.74:    # few variables, many reactions, mostly computed coefficients, function objects shared between
         #               components (rates, derived values, coefficients) with different argument lists
         content = cg.gen_content(rng, n_vars=(1, 2), n_pars=(2, 3), n_comps=(3, 7), p_dyn_coef=0.75,
-                                 all_vars_have_eq=True, name_fn=cg.Namer(rng, 0.6))
+                                 all_vars_have_eq=True, name_fn=cg.Namer(rng, 0.6), p_param_names=0.3)
         stratum = "shared-functions"
     elif r < 0.84:    # functions defined in modules of their own that have module-level float constants: some are read
         #               by the function, some only share a name with a parameter; then a session step: the constants
@@ -459,10 +459,18 @@ def gen_case(ctx, i):
                                  name_fn=cg.Namer(rng, 0.3))
         stratum = "module-constants"
         extra["session"] = cg.has_session(content)
-    elif r < 0.95:    # wider expression fragment (/ % ** unary minus, nested): Python text only, executed, R vs S
+    elif r < 0.92:    # wider expression fragment (/ % ** unary minus, nested): Python text only, executed, R vs S
         content = cg.gen_content(rng, all_vars_have_eq=True, rich=True, p_dyn_coef=0.3, small=(1, 2, 4), p_time=0.0,
                                  n_pars=(1, 3))
         stratum = "wider-expressions"
+        extra["oracle_only"] = True
+        vals = (1, 2, 4, 8)
+    elif r < 0.95:    # constants of the math module (math.pi, math.e) as factor / summand / divisor / modulus of a
+        #               remainder (`x % (2*math.pi)`): Python text executed (node runs the TypeScript text in the thorough
+        #               tier), R vs S to 1e-9
+        content = cg.gen_content(rng, all_vars_have_eq=True, rich="math", p_dyn_coef=0.3, small=(1, 2, 4), p_time=0.0,
+                                 n_pars=(1, 3), n_comps=(1, 4))
+        stratum = "math-constants"
         extra["oracle_only"] = True
         vals = (1, 2, 4, 8)
     else:             # functions with control flow (if/elif/else, conditional expressions, every comparison, abs/min/
